@@ -607,3 +607,72 @@ def run(ctx):
             why = f"matrix reshaped to (n^2, n^2) with n the second argument: {square}; vector count is chol.shape[0]: {count_ok}"
     ctx.ob("CAP-1", "sampler.propagate_phaseless_ad_1: factorises the (norb^2 x norb^2) tensor into as many "
            "vectors as the Hamiltonian carries", ok, why, fi)
+    if len(calls) == 1 and len(call_parts(calls[0])[1]) == 3:
+        _symmetrised_input(ctx, fi, strip_wrappers(call_parts(calls[0])[1][0]))
+
+
+def _symmetrised_input(ctx, fi, mat):
+    """SYM-1: the row-pivoted Cholesky reads rows of its input as columns (mat[nu] is used for the column nu), which is the
+    same thing for a symmetric matrix only.  The call site builds the matrix as a sum of axis permutations of one 4-index
+    tensor, reshaped to (n^2, n^2): that sum is symmetric under (pq) <-> (rs) for every tensor iff the set of permutations
+    is mapped onto itself by the pair swap (2, 3, 0, 1)."""
+    from ..rules.match import sum_terms, m_method
+    mm = m_method(mat, "reshape")
+    if mm is None:
+        ctx.rep.note("sampler.propagate_phaseless_ad_1: the matrix handed to modified_cholesky is not written as "
+                     "tensor.reshape(n^2, n^2); the symmetry of the input is not decided")
+        return
+    X = strip_wrappers(mm[0])
+    for _ in range(3):                     # overall scalar factors
+        d = m_binop(X, "/")
+        if d is not None and strip_wrappers(d[1]).op == "const":
+            X = strip_wrappers(d[0])
+            continue
+        m_ = m_binop(X, "*")
+        if m_ is not None and strip_wrappers(m_[0]).op == "const":
+            X = strip_wrappers(m_[1])
+            continue
+        if m_ is not None and strip_wrappers(m_[1]).op == "const":
+            X = strip_wrappers(m_[0])
+            continue
+        break
+    perms, base = [], None
+    for sg, t in sum_terms(X):
+        t = strip_wrappers(t)
+        pr, src = None, None
+        a = m_arrcall(t, "transpose") if t.op == "call" else None
+        if a is not None and len(a) == 2 and strip_wrappers(a[1]).op in ("tuple", "list"):
+            src, ax = a[0], strip_wrappers(a[1]).args
+            if all(x.op == "const" and type(x.args[0]) is int for x in ax):
+                pr = tuple(x.args[0] for x in ax)
+        elif t.op == "call" and array_fn(t) == "einsum" and len(call_parts(t)[1]) == 2 and \
+                call_parts(t)[1][0].op == "const" and isinstance(call_parts(t)[1][0].args[0], str) and \
+                "->" in call_parts(t)[1][0].args[0]:
+            i_, o_ = call_parts(t)[1][0].args[0].replace(" ", "").split("->")
+            if len(i_) == 4 and sorted(i_) == sorted(o_) and len(set(i_)) == 4:
+                pr, src = tuple(i_.index(c) for c in o_), call_parts(t)[1][1]
+        else:
+            mt = m_method(t, "transpose")
+            if mt is not None:
+                ax = mt[1]
+                if len(ax) == 1 and strip_wrappers(ax[0]).op in ("tuple", "list"):
+                    ax = strip_wrappers(ax[0]).args
+                if len(ax) == 4 and all(x.op == "const" and type(x.args[0]) is int for x in ax):
+                    pr, src = tuple(x.args[0] for x in ax), mt[0]
+        if pr is None:
+            pr, src = (0, 1, 2, 3), t
+        src = strip_wrappers(src)
+        if base is None:
+            base = src
+        if src is not base or sg != 1 or len(pr) != 4 or sorted(pr) != [0, 1, 2, 3]:
+            ctx.rep.note("sampler.propagate_phaseless_ad_1: the tensor handed to modified_cholesky is not a plain sum of axis "
+                         "permutations of one tensor; the symmetry of the input is not decided")
+            return
+        perms.append(pr)
+    swap = (2, 3, 0, 1)
+    image = sorted(tuple(pr[swap[k]] for k in range(4)) for pr in perms)
+    ok = image == sorted(perms)
+    ctx.ob("SYM-1", "sampler.propagate_phaseless_ad_1: the matrix handed to modified_cholesky is symmetric", ok,
+           f"sum over the permutations {sorted(perms)}" + ("" if ok else
+           f": exchanging the index pairs maps them to {image}, a different set -- the (n^2, n^2) matrix is not symmetric, "
+           f"and the pivoted Cholesky reads its rows as columns"), fi)
